@@ -7,6 +7,8 @@ from concurrent.futures import ThreadPoolExecutor
 V='/verif'
 env=dict(os.environ, GOFLAGS='-mod=mod', GOPROXY='off', GOSUMDB='off', GOTOOLCHAIN='local', NCGVERIF_CHILD='1'); env.pop('GOWORK',None)
 props=[json.loads(l)['id'] for l in open(f'{V}/properties.jsonl')]
+# a private copy of the checker, so that rebuilding bin/ncgverif during the run does not mix versions
+BIN=tempfile.mkdtemp(prefix='ncgverif-xb-bin-')+'/ncgverif'; shutil.copy(f'{V}/bin/ncgverif', BIN); os.chmod(BIN,0o755)
 patches=sorted(glob.glob(f'{V}/selftest/benign/*.patch'))
 if len(sys.argv)>1: patches=[p for p in patches if any(a in p for a in sys.argv[1:])]
 def run(patch):
@@ -21,7 +23,7 @@ def run(patch):
             r=subprocess.run(['patch','-p1','-s','-i',patch],cwd=tree,capture_output=True,text=True)
             if r.returncode!=0: return patch,{'_':'does not apply'}
         for pid in props:
-            r=subprocess.run([f'{V}/bin/ncgverif','-repo',tree,'-prop',pid,'-tier','quick','-verif',out],capture_output=True,text=True,env=env,cwd=V)
+            r=subprocess.run([BIN,'-repo',tree,'-prop',pid,'-tier','quick','-verif',out],capture_output=True,text=True,env=env,cwd=V)
             if r.returncode!=0:
                 first=[l for l in r.stdout.splitlines() if l.startswith(('FAILED','UNDECIDED'))][:1]
                 res[pid]=(first[0] if first else 'exit %d'%r.returncode)[:200]
@@ -36,5 +38,6 @@ with ThreadPoolExecutor(max_workers=12) as ex:
         for pid,msg in res.items():
             print(f'FALSE-ALARM {name} under {pid}: {msg}', flush=True)
 json.dump(allres, open(f'{V}/selftest/cross_benign.json','w'), indent=1, sort_keys=True)
+shutil.rmtree(os.path.dirname(BIN), ignore_errors=True)
 n=sum(1 for r in allres.values() if r)
 print(f'{len(allres)} benign rewrites x {len(props)} checks: {n} rewrites with at least one alarm')
